@@ -637,7 +637,7 @@ def index_value(interp, base, idx):
             return Atom('char', [base, idx], 'str')
         raise Raised(Exc('IndexError'))
     if base.tag in ('list', 'tuple'):
-        if idx.tag not in NUMERIC and idx.tag is not None:
+        if (idx.tag not in NUMERIC and idx.tag is not None) or idx.tag in ('float', 'complex'):
             raise Raised(Exc('TypeError', 'indices must be integers'))
         if interp.decide('index %r within %r' % (idx, base), [True, False]):
             return Atom('item', [base, idx], None)
@@ -691,6 +691,12 @@ def value_attr(interp, base, attr):
         return ListV([Const(base.message)], 'tuple')
     if attr == '__class__':
         return type_of(interp, base)
+    if isinstance(base, (RegexV,)) or (isinstance(base, Atom) and base.op == 're.compile'):
+        if attr in ('match', 'search', 'fullmatch'):
+            # the bound method as a value (returned or stored, called later)
+            nm = 'hx:regex.%s:%d' % (attr, len(interp.extern))
+            interp.extern[nm] = lambda it, args, kwargs, base=base, attr=attr: call_method(it, base, attr, args, kwargs)
+            return Builtin(nm)
     if tag == 'err' and attr == 'args':
         # an error value stands for one of the module-level singletons, each built from exactly one message
         return ListV([Atom('message', [base], 'str')], 'tuple')
@@ -760,6 +766,8 @@ def call_type(interp, name, args, kwargs):
             if interp.decide('%s(%r) parses' % (name, a), [True, False]):
                 if name == 'int' and len(args) == 2 and getattr(interp, 'radix_parse_symbol', None):
                     return Aff(1, 0, 'int', interp.radix_parse_symbol)      # the parsed integer as a symbolic variable
+                if name == 'int' and len(args) == 1 and getattr(interp, 'int_parse_symbol', False) and isinstance(a, Sym):
+                    return Aff(1, 0, 'int', a.name)     # the integer a text spells, as a symbolic variable named after the text
                 return Atom(name, [a] + list(args[1:]), name)
             raise Raised(Exc('ValueError', 'invalid literal'))
         if a.tag is None:
@@ -1070,7 +1078,16 @@ def call_builtin(interp, name, args, kwargs):
         if isinstance(args[0], Const) and isinstance(args[0].value, str):
             fl = args[1].value if len(args) > 1 and isinstance(args[1], Const) else 0
             return RegexV(args[0].value, fl if isinstance(fl, int) else 0)
+        if args[0].tag == 'str':
+            return Atom('re.compile', list(args), 'regex')       # a pattern built from a symbolic text
         return Top('regex', ignorance=False)
+    if name == 're.escape':
+        if isinstance(args[0], Const) and isinstance(args[0].value, str):
+            import re as _re
+            return Const(_re.escape(args[0].value))
+        if args[0].tag not in ('str', None):
+            raise Raised(Exc('TypeError', 'expected string'))
+        return Atom('re.escape', [args[0]], 'str')
     if name in ('re.match', 're.search', 're.fullmatch') and isinstance(args[0], Const):
         return regex_method(interp, RegexV(args[0].value), short, args[1:], kwargs)
     if name in ('re.UNICODE', 're.IGNORECASE', 're.I', 're.U', 're.MULTILINE', 're.DOTALL'):
@@ -1201,6 +1218,16 @@ def call_method(interp, base, attr, args, kwargs, text=''):
         raise Unmodelled('generator method %s' % attr)
     if isinstance(base, RegexV):
         return regex_method(interp, base, attr, args, kwargs)
+    if isinstance(base, Atom) and base.op == 're.compile' and attr in ('sub', 'subn'):
+        return Atom('re.' + attr, [base.args[0]] + list(args), 'str')
+    if isinstance(base, Atom) and base.op == 're.compile' and attr in ('match', 'search', 'fullmatch'):
+        subj = args[0]
+        if subj.tag is not None and subj.tag != 'str':
+            raise Raised(Exc('TypeError', 'expected string or bytes-like object'))
+        r = Atom('re.' + attr, [base.args[0], subj], 'match')
+        if interp.decide('%r' % (r,), [True, False], r):
+            return r
+        return Const(None)
     if isinstance(base, MatchV):
         if attr == 'groups':
             return ListV(base.groups[1:], 'tuple')
